@@ -12,7 +12,7 @@ import numpy as np
 
 from .oracle import refq
 
-ENTRY_CLASSES = ["gauss", "int", "pure_imag", "single_axis", "zeros", "sparse", "mixed_mag", "huge", "tiny", "nonpos", "nonneg", "nonpos_sparse", "sum_zero"]
+ENTRY_CLASSES = ["gauss", "int", "pure_imag", "single_axis", "zeros", "sparse", "mixed_mag", "huge", "tiny", "nonpos", "nonneg", "nonpos_sparse", "sum_zero", "neg_real"]
 
 
 def rng_for(seed: int, *key) -> np.random.Generator:
@@ -47,6 +47,9 @@ def entries(rng, cls: str, m: int, n: int) -> np.ndarray:
         c = rng.standard_normal((m, n, 4)) * 1e-140
     elif cls == "nonpos":            # sign patterns: no strictly positive component anywhere
         c = -np.abs(rng.standard_normal((m, n, 4)))
+    elif cls == "neg_real":          # real matrix without a positive entry (zero vector part): the maximum of the entries is <= 0
+        c = np.zeros((m, n, 4))
+        c[..., 0] = -np.abs(np.round(rng.standard_normal((m, n)) * 4.0) / 2.0 if rng.random() < 0.5 else rng.standard_normal((m, n)))
     elif cls == "nonneg":
         c = np.abs(rng.standard_normal((m, n, 4)))
     elif cls == "sum_zero":          # exact cancellations between components: x + y + z = 0 (and sometimes w + x + y + z = 0)
